@@ -7,3 +7,4 @@ import WrapModel.Model.Parse
 import WrapModel.Model.Dump
 import WrapModel.Model.Hex
 import WrapModel.Model.Driver
+import WrapModel.Props.C01
